@@ -605,17 +605,35 @@ func (c *cl) scenarioWindow(rounds int) error {
 	}
 	for r := 0; r < rounds; r++ {
 		bulk, single := c.randBulk()
-		release := n.Gate.HoldBefore(1)
+		var release chan struct{}
 		done := make(chan bool, 1)
-		go func() { done <- c.add(bulk, single) }()
-		select {
-		case <-n.Gate.Held:
-		case <-time.After(10 * time.Second):
-			close(release)
-			return fmt.Errorf("apply never reached the store")
+		if r%2 == 1 {
+			// park the insertion in the middle of its in-memory computation (the balloon has
+			// advanced its version and the history tree, and reads the hyper table)
+			release = n.Gate.HoldGet(storage.HyperTable)
+			go func() { done <- c.add(bulk, single) }()
+			select {
+			case <-n.Gate.GetHeld:
+				c.emit(trace.Ev{"a": "info", "what": "window open (insertion parked at its first read of the hyper table)"})
+			case <-time.After(3 * time.Second):
+				// this insertion did not read the table: nothing to park
+				n.Gate.CancelGet()
+				close(release)
+				<-done
+				continue
+			}
+		} else {
+			release = n.Gate.HoldBefore(1)
+			go func() { done <- c.add(bulk, single) }()
+			select {
+			case <-n.Gate.Held:
+			case <-time.After(10 * time.Second):
+				close(release)
+				return fmt.Errorf("apply never reached the store")
+			}
+			// inside the window: the balloon has computed the insertion, the store has not been written
+			c.emit(trace.Ev{"a": "info", "what": "window open"})
 		}
-		// inside the window: the balloon has computed the insertion, the store has not been written
-		c.emit(trace.Ev{"a": "info", "what": "window open"})
 		nlog := uint64(len(c.log))
 		var wg sync.WaitGroup
 		var fmu sync.Mutex
@@ -684,7 +702,11 @@ func (c *cl) scenarioWindow(rounds int) error {
 		if c.rng.Intn(2) == 0 {
 			c.checkAll(false)
 		}
+		if c.rng.Intn(2) == 0 {
+			c.backupRace()
+		}
 	}
+	c.backupRace()
 	c.checkAll(true)
 	c.restoreBackups()
 	return nil
@@ -693,18 +715,73 @@ func (c *cl) scenarioWindow(rounds int) error {
 func (c *cl) backup(id int) {
 	n := c.nodes[id-1]
 	var err error
+	emitted := false
+	mk := func(failed bool) trace.Ev {
+		ev := trace.Ev{"a": "backup", "n": id, "err": failed}
+		ids := []interface{}{}
+		for _, bi := range n.Gate.ManagedStore.GetBackupsInfo() {
+			ids = append(ids, trace.Ev{"id": bi.ID, "meta": bi.Metadata})
+		}
+		ev["list"] = ids
+		return ev
+	}
+	// the event is written at the linearization point: the engine has captured the store and
+	// CreateBackup has not yet returned (it still excludes insertions), so no later insertion
+	// can be recorded before it
+	n.Gate.OnBackup = func(e error) {
+		emitted = true
+		c.emit(mk(e != nil))
+	}
 	pan, msg := guard(func() { err = n.Raft.CreateBackup() })
-	ev := trace.Ev{"a": "backup", "n": id, "err": err != nil || pan}
+	n.Gate.OnBackup = nil
+	if emitted {
+		if pan || err != nil {
+			c.emit(trace.Ev{"a": "info", "what": "CreateBackup failed after the engine copied the store: " + truncate(msg, 120)})
+		}
+		return
+	}
+	ev := mk(true)
 	if pan {
 		ev["panic"] = truncate(msg, 160)
 	}
-	infos := n.Raft.ListBackups()
-	ids := []interface{}{}
-	for _, bi := range infos {
-		ids = append(ids, trace.Ev{"id": bi.ID, "meta": bi.Metadata})
-	}
-	ev["list"] = ids
 	c.emit(ev)
+}
+
+// backupRace: an insertion is submitted after CreateBackup has read the version it records and
+// before the engine captures the store (the gate holds the copy). A correct node makes the
+// insertion wait; the recorded version must be the version of what is captured either way.
+func (c *cl) backupRace() {
+	n := c.nodes[0]
+	bulk, single := c.randBulk()
+	release := n.Gate.HoldBackup()
+	bdone := make(chan struct{})
+	go func() { c.backup(1); close(bdone) }()
+	select {
+	case <-n.Gate.BackupHeld:
+	case <-bdone:
+		c.emit(trace.Ev{"a": "info", "what": "backup never reached the store"})
+		return
+	case <-time.After(10 * time.Second):
+		close(release)
+		<-bdone
+		return
+	}
+	c.emit(trace.Ev{"a": "info", "what": "backup copy held, insertion submitted"})
+	adone := make(chan bool, 1)
+	go func() { adone <- c.add(bulk, single) }()
+	select {
+	case <-adone:
+		adone <- true
+		c.emit(trace.Ev{"a": "info", "what": "insertion completed while the backup was being taken"})
+	case <-time.After(1500 * time.Millisecond):
+	}
+	close(release)
+	<-bdone
+	select {
+	case <-adone:
+	case <-time.After(20 * time.Second):
+		c.emit(trace.Ev{"a": "hang", "n": 1})
+	}
 }
 
 // ---- scenario: backups (C16): add / backup / add / delete-backup ..., then every existing backup is
